@@ -34,16 +34,17 @@ P = {
        "first non-nil *Error argument.",
   ref="DESIGN.md section 5 C11"),
  "C02": dict(
-  text="28 Lean theorems about executable models of the Uint128/Int128 conversion surface and of IEEE binary64 (GoSem/F64.lean, "
-       "floats as data, rounding by exact integer arithmetic): String/parse and unmarshal round trips, FromBigInt exact-or-"
-       "saturates and AsBigInt identities, the five narrowing predicates iff the As* conversion preserves the value, "
-       "FromFloat64 = truncation in range / nearest bound outside / NaN to 0 with no implementation-defined conversion ever "
-       "evaluated, AsFloat64 exact (value and sign) below 2^53. ~500k lines per quick run incl. f64op lines validating the "
-       "float model against the hardware.",
-  note="NOT proved (kept as *_Statement definitions): the full rejection grammar of FromString (a partial theorem is proved), "
-       "AsFloat64's sign and one-ulp bound for values >= 2^53 (compared bit-for-bit with the hardware on every run instead); "
-       "fmt/JSON/YAML/Scan plumbing is an implementation-side identity oracle against math/big (no theorem); 32-bit big.Word "
-       "branches not modelled; math/big and strconv grammar transcribed from go1.24.2.",
+  text="37 Lean theorems about executable models of the Uint128/Int128 conversion surface and of IEEE binary64 (GoSem/F64.lean, "
+       "floats as data, rounding by exact integer arithmetic): String/parse and unmarshal round trips, fromString_rejects (the "
+       "text is accepted iff it is an integer literal of the declarative grammar, plain and exponent forms, value stated over Q), "
+       "FromBigInt exact-or-saturates and AsBigInt identities, the five narrowing predicates iff the As* conversion preserves "
+       "the value, FromFloat64 = truncation in range / nearest bound outside / NaN to 0 with no implementation-defined "
+       "conversion ever evaluated, AsFloat64: sign and zero-ness for all 2^128 values of both types, exact below 2^53, and "
+       "within one unit in the last place (both of the result's and of the exact value's binade; tight, relies on ties-to-even). "
+       "~500k lines per quick run incl. f64op lines validating the float model against the hardware.",
+  note="fmt/JSON/YAML/Scan plumbing is an implementation-side identity oracle against math/big (no theorem); 32-bit big.Word "
+       "branches not modelled; math/big and strconv grammars transcribed from go1.24.2 (incl. math/big's exponent limits: an "
+       "exponent literal beyond them is rejected rather than saturated - reading, Appendix B).",
   ref="DESIGN.md section 5 C02"),
  "C09": dict(
   text="33 Lean theorems about the executable byte-level model of eval's parser and evaluator (nextOperator with the e- hack, "
